@@ -1,8 +1,11 @@
 (* Executable checkers for the correspondence run (tie K) of C12, second part:
-   * pairs by TABLE INDEX: the distinct groups met in a run are written once (Cases/C12/tables.v, a two-level list,
-     64 groups per chunk) together with `required_of` of each computed once by the model; a pair case is five numbers.
-     Same comparison as GroupCheck.chk_pair (| & <= == hash isdisjoint), without re-parsing the four name lists and
-     without re-computing the two `required` tuples for every pair.
+   * pairs in COMPACT form: the operand groups a, b are indices into a table of the distinct operand groups of the run
+     (Cases/C12/tables.v, a two-level list, 64 groups per chunk; `required_of` of each is computed once by the model);
+     the observed a|b and a&b are bit masks over the universe's element order (bit k = k-th element), decoded here into
+     the name list in universe order and compared as LISTS with the model's result (the harness reports an
+     implementation result that is not in universe order as an oracle failure before encoding it).
+     Same comparison as GroupCheck.chk_pair (| & <= == hash isdisjoint), without parsing four name lists and without
+     re-computing the two `required` tuples for every pair.
    * the GENERATED algorithms (Gen/GroupGen.v) against the implementation: constructor (+ data_coordinate_keys),
      n-ary union / intersection, comparisons. *)
 From Coq Require Import String List Bool Arith NArith.
@@ -17,14 +20,20 @@ Definition lk (t : table) (i : N) : list string :=
 
 Definition required_table (u : universe) (t : table) : table := map (map (required_of u)) t.
 
-(* (i, j, index of a|b, index of a&b, [a<=b; a==b; hash a == hash b; a.isdisjoint(b)]) *)
+Fixpoint unmask (u : universe) (m : N) : list string :=
+  match u with
+  | [] => []
+  | e :: r => if N.odd m then ename e :: unmask r (N.div2 m) else unmask r (N.div2 m)
+  end.
+
+(* (i, j, mask of a|b, mask of a&b, [a<=b; a==b; hash a == hash b; a.isdisjoint(b)]) *)
 Definition chk_pair_ix (u : universe) (t tr : table) (c : N * N * N * N * list bool) : bool :=
-  let '(i, j, ui, ii, bs) := c in
+  let '(i, j, mu, mi, bs) := c in
   let na := lk t i in
   let nb := lk t j in
   match closure u (na ++ nb), closure u (filter (fun d => memb d nb) na) with
   | GOk un, GOk it =>
-    list_eqb un (lk t ui) && list_eqb it (lk t ii)
+    list_eqb un (unmask u mu) && list_eqb it (unmask u mi)
     && bools_eqb bs [forallb (fun d => memb d nb) na; list_eqb na nb;
                      list_eqb (lk tr i) (lk tr j); forallb (fun d => negb (memb d nb)) na]
   | _, _ => false
